@@ -80,7 +80,8 @@ impl FromStr for Type {
     type Err = &'static str;
 
     fn from_str(text: &str) -> Result<Self, Self::Err> {
-        match Caseless(text) {
+        let upper = text.to_ascii_uppercase();
+        match Caseless(&upper) {
             Caseless("A") => Ok(Self::A),
             Caseless("NS") => Ok(Self::NS),
             Caseless("MD") => Ok(Self::MD),
